@@ -35,7 +35,11 @@ theorem castOut_cnt (app : App) (fw : Bool) (cnt : Nat) (s : Slots) (out : Out) 
     · left; exact finishEmpty_done _
     · left; exact finishBytes_done _ _
   · simp only
-    split <;> first | (left; rfl) | (right; exact ⟨_, _, rfl⟩)
+    split
+    · split <;> first | (left; rfl) | (right; exact ⟨_, _, rfl⟩)
+    · right; exact ⟨_, _, rfl⟩
+    · right; exact ⟨_, _, rfl⟩
+    · left; rfl
   · right; exact ⟨_, _, rfl⟩
   · split
     · left; rfl
@@ -54,12 +58,39 @@ theorem castOut_text_done (app : App) (fw : Bool) (cnt : Nat) (s : Slots) (t : S
   · exact finishEmpty_done _
   · exact finishBytes_done _ _
 
+/-- the default error handler answers a text body with a text page (HTML or JSON) -/
+theorem defaultHandler_text (s : Slots) (r : RState) (t : Str) :
+    ∃ s' x, defaultHandler s r (.text t) = some (s', .text x) := by
+  unfold defaultHandler
+  split
+  · simp only [jsonPage, jsonBody, Option.map_some]
+    exact ⟨_, _, rfl⟩
+  · exact ⟨_, _, rfl⟩
+
+/-- the two ways the default error handler answers: the HTML page on unchanged slots, or a JSON
+text with the response's Content-Type set -/
+theorem defaultHandler_cases (s : Slots) (r : RState) (body : Out) (s' : Slots) (o : Out)
+    (h : defaultHandler s r body = some (s', o)) :
+    (s' = s ∧ o = defaultPage s r body) ∨
+    (∃ j, s' = withResp s (setJsonCtype s.resp) ∧ o = .text j) := by
+  unfold defaultHandler at h
+  split at h
+  · split at h
+    · cases h
+    · simp only [Option.some.injEq, Prod.mk.injEq] at h
+      right; exact ⟨_, h.1.symm, h.2.symm⟩
+  · simp only [Option.some.injEq, Prod.mk.injEq] at h
+    left; exact ⟨h.1.symm, h.2.symm⟩
+
 /-- once the counter has passed the bound the iteration returns -/
 theorem step_guard_done (app : App) (fw : Bool) (cnt : Nat) (s : Slots) (out : Out)
     (h : Gen.wsgiCastMaxLoops < cnt + 1) : (step app fw (.run cnt s out)).isDone = true := by
   unfold step
   simp only [gt_iff_lt, h, if_true]
-  unfold defaultPage
+  obtain ⟨s', x, hd⟩ := defaultHandler_text
+    (withResp s (apply { code := 500, line := lineOfCode 500, headers := [], cookies := [] } s.resp))
+    { code := 500, line := lineOfCode 500, headers := [], cookies := [] } "too many iterations".toList
+  rw [hd]
   exact castOut_text_done _ _ _ _ _
 
 /-- one iteration returns or continues with the counter incremented -/
@@ -136,7 +167,11 @@ theorem castOut_notDiverged (app : App) (fw : Bool) (cnt : Nat) (s : Slots) (out
     · unfold finishEmpty; trivial
     · unfold finishBytes; trivial
   · simp only
-    split <;> trivial
+    split
+    · split <;> trivial
+    · trivial
+    · trivial
+    · trivial
   · trivial
   · split
     · trivial
@@ -153,6 +188,10 @@ theorem step_notDiverged (app : App) (fw : Bool) (c : Cfg) (h : c.notDiverged) :
   | run cnt s o =>
     unfold step
     simp only
-    split <;> exact castOut_notDiverged _ _ _ _ _
+    split
+    · split
+      · trivial
+      · exact castOut_notDiverged _ _ _ _ _
+    · exact castOut_notDiverged _ _ _ _ _
 
 end Ombott.Wsgi
